@@ -471,39 +471,51 @@ fn c07_mean_real() {{
 
 
 def unit_calc(inj, scratch):
+    """ArithmeticOp::calc: the `match &self {..}` block copied verbatim; `left` / `right` are shim Variants (FV)."""
     frag_begin(inj)
     s = src('src/operators.rs', scratch)
     it = s.fn('calc', impl='ArithmeticOp')
     m = s.find_one(r'match\s+&self\s*\{', s.body_span(it), what='ArithmeticOp::calc: match &self {')
     c = s.match_close(m.end() - 1)
     t = dedent(s.text[m.start():c + 1])
-    g = replace_exact(t, 'left.to_float()', 'l', 5)
-    g = replace_exact(g, 'right.to_float()', 'r', 5)
-    g = replace_exact(g, 'match &self', 'match &op', 1)
+    g = replace_exact(t, 'match &self', 'match &op', 1)
+    if re.search(r'\bself\b', g):
+        raise AnchorLost('ArithmeticOp::calc: the operator table uses self beyond the match scrutinee')
     text = f'''pub mod calc {{
 use super::*;
-pub fn frag_calc(op: &ArithmeticOp, l: f64, r: f64) -> f64 {{ {g} }}
-fn same(a: f64, b: f64) -> bool {{ (a.is_nan() && b.is_nan()) || a.to_bits() == b.to_bits() }}
+use super::cmp::FV;
+pub fn frag_calc(op: &ArithmeticOp, left: &FV, right: &FV) -> f64 {{ {g} }}
+fn num(x: f64) -> FV {{ FV::float(x) }}
 // Symbolic f64 operands are out of reach: CBMC did not finish `same(l + r, l + r)` for two symbolic f64 in 120 s
 // (measured), and `%` (fmod) is not modelled at all. The operator dispatch is therefore checked on concrete
-// witness pairs whose five results are pairwise distinct - a BOUNDED stand-in, labelled as such.
+// witness pairs whose results are pairwise distinct - a BOUNDED stand-in, labelled as such.
 #[kani::proof]
 fn c15_calc_witnesses() {{
     kani::cover!(true);
-    assert!(frag_calc(&ArithmeticOp::Add, 7.0, 2.0) == 9.0, "OBL C15.calc.table: left + right");
-    assert!(frag_calc(&ArithmeticOp::Subtract, 7.0, 2.0) == 5.0, "OBL C15.calc.table: left - right");
-    assert!(frag_calc(&ArithmeticOp::Multiply, 7.0, 2.0) == 14.0, "OBL C15.calc.table: left * right");
-    assert!(frag_calc(&ArithmeticOp::Divide, 7.0, 2.0) == 3.5, "OBL C15.calc.table: left / right");
-    assert!(frag_calc(&ArithmeticOp::Subtract, -1.5, 0.25) == -1.75, "OBL C15.calc.table: left - right (2)");
-    assert!(frag_calc(&ArithmeticOp::Divide, 1.0, 8.0) == 0.125, "OBL C15.calc.table: left / right (2)");
-    assert!(frag_calc(&ArithmeticOp::Multiply, -3.0, 0.5) == -1.5, "OBL C15.calc.table: left * right (2)");
-    assert!(frag_calc(&ArithmeticOp::Add, -3.0, 0.5) == -2.5, "OBL C15.calc.table: left + right (2)");
+    assert!(frag_calc(&ArithmeticOp::Add, &num(7.0), &num(2.0)) == 9.0, "OBL C15.calc.table: left + right");
+    assert!(frag_calc(&ArithmeticOp::Subtract, &num(7.0), &num(2.0)) == 5.0, "OBL C15.calc.table: left - right");
+    assert!(frag_calc(&ArithmeticOp::Multiply, &num(7.0), &num(2.0)) == 14.0, "OBL C15.calc.table: left * right");
+    assert!(frag_calc(&ArithmeticOp::Divide, &num(7.0), &num(2.0)) == 3.5, "OBL C15.calc.table: left / right");
+    assert!(frag_calc(&ArithmeticOp::Subtract, &num(-1.5), &num(0.25)) == -1.75, "OBL C15.calc.table: left - right (2)");
+    assert!(frag_calc(&ArithmeticOp::Divide, &num(1.0), &num(8.0)) == 0.125, "OBL C15.calc.table: left / right (2)");
+    assert!(frag_calc(&ArithmeticOp::Multiply, &num(-3.0), &num(0.5)) == -1.5, "OBL C15.calc.table: left * right (2)");
+    assert!(frag_calc(&ArithmeticOp::Add, &num(-3.0), &num(0.5)) == -2.5, "OBL C15.calc.table: left + right (2)");
+}}
+// every operator is total on fractional and zero operands (no panic); the VALUE of % is not checked (fmod unmodelled)
+#[kani::proof]
+fn c15_calc_total() {{
+    kani::cover!(true);
+    let _ = frag_calc(&ArithmeticOp::Modulo, &num(7.0), &num(0.5));
+    let _ = frag_calc(&ArithmeticOp::Modulo, &num(7.0), &num(0.0));
+    let _ = frag_calc(&ArithmeticOp::Modulo, &num(7.0), &num(2.5));
+    let _ = frag_calc(&ArithmeticOp::Divide, &num(7.0), &num(0.0));
+    let _ = frag_calc(&ArithmeticOp::Divide, &num(7.0), &num(0.5));
 }}
 }}
 '''
     inj.new_file(FRAG_FILE, text)
-    r, d = frag_record('frag_calc', 'src/operators.rs', 'fn ArithmeticOp::calc / `match &self {..}`',
-                       t, g, ['left.to_float() -> l', 'right.to_float() -> r', '&self -> &op'], 'Variant boxing (to_float, from_float)')
+    r, d = frag_record('frag_calc', 'src/operators.rs', 'fn ArithmeticOp::calc / `match &self {..}` (verbatim)',
+                       t, g, ['&self -> &op', 'left, right: &Variant -> shim FV (to_float exact, to_int truncating)'], 'Variant boxing (from_float)')
     return dict(functions=[r], dropped=[d])
 
 
@@ -1265,9 +1277,13 @@ def unit_caps(inj, scratch):
     it = s.fn('parse_capabilities')
     body_m = s.mask[it['open']:it['close']]
     body_t = s.text[it['open']:it['close']]
-    hi = re.search(r'if\s+caps\.len\(\)\s*>=\s*20\s*\{', body_m)
-    if not hi:
-        raise AnchorLost('parse_capabilities: `if caps.len() >= 20 {` not found')
+    his = [m for m in re.finditer(r'if\s+(caps\.len\(\)\s*[<>=]+\s*[\w:]+)\s*\{', body_m)]
+    his = [m for m in his if 'return' not in body_m[m.end():m.end() + 40]]
+    if len(his) != 1:
+        raise AnchorLost('parse_capabilities: the guard of the second capability word was not found')
+    hi = his[0]
+    guard = body_t[hi.start(1):hi.end(1)]
+    consts = re.findall(r'^\s*(?:pub\s+)?const\s+\w+\s*:\s*usize\s*=\s*[^;]+;', s.text, flags=re.M)
     calls = [(m.start(), m.group(1), re.sub(r'\s+', ' ', m.group(2)).strip())
              for m in re.finditer(r'check_cap!\(\s*(\w+)\s*,\s*([^,]+?)\s*,\s*permitted\s*,\s*inherited\s*,\s*effective\s*,\s*result\s*\)', body_m)]
     if len(calls) < 30:
@@ -1289,7 +1305,8 @@ def unit_caps(inj, scratch):
     gen = ['    pub const LOW: [(&str, u32); %d] = [%s];' % (len(low), ', '.join(f'("{n}", {c})' for n, c in low)),
            '    pub const HIGH: [(&str, u32); %d] = [%s];' % (len(high), ', '.join(f'("{n}", {c})' for n, c in high)),
            '    pub const SLICES: [(&str, usize, usize); %d] = [%s];' % (len(slices), ', '.join(f'("{a}", {b}, {c})' for a, b, c in slices)),
-           f'    pub fn frag_effective(caps: &[u8]) -> bool {{ {eff.group(1)} }}']
+           f'    pub fn frag_effective(caps: &[u8]) -> bool {{ {eff.group(1)} }}',
+           f'    pub fn frag_high_guard(caps: &[u8]) -> bool {{ {guard} }}']
     asserts = []
     for i, name in enumerate(LINUX_CAPS):
         tbl, k = ('LOW', i) if i < 32 else ('HIGH', i - 32)
